@@ -364,6 +364,67 @@ C05_WorkConserving ==
      => ~FitsIdle(j)
 
 (***************************************************************************)
+(* C04 - hard placement constraints for every bind and nomination.         *)
+(* Node side: ready, schedulable, node selector, required node affinity    *)
+(* (In / NotIn), NoSchedule / NoExecute taints tolerated. Pod side:        *)
+(* required pod affinity / anti-affinity against the pods of the topology  *)
+(* domain, including pods placed earlier in the same cycle, in both        *)
+(* directions. (Topology-CRD constraints are not modelled.)                *)
+(***************************************************************************)
+HostKey == "kubernetes.io/hostname"
+ZoneKey == "topology.kubernetes.io/zone"
+NodeLabel(n, k) == IF k = HostKey THEN N(n).name ELSE IF k \in DOMAIN N(n).labels THEN N(n).labels[k] ELSE "<none>"
+HasLabel(n, k) == k = HostKey \/ k \in DOMAIN N(n).labels
+Tolerates(tol, taint) ==
+  /\ (tol.effect = "" \/ tol.effect = taint.effect)
+  /\ \/ tol.op = "Exists" /\ (tol.key = "" \/ tol.key = taint.key)
+     \/ tol.op = "Equal" /\ tol.key = taint.key /\ tol.val = taint.val
+NodeOK(p, n) ==
+  /\ N(n).ready = 1 /\ N(n).unsched = 0
+  /\ \A k \in DOMAIN P(p).sel : HasLabel(n, k) /\ NodeLabel(n, k) = P(p).sel[k]
+  /\ \A k \in DOMAIN P(p).affIn : HasLabel(n, k) /\ NodeLabel(n, k) = P(p).affIn[k]
+  /\ \A k \in DOMAIN P(p).affNot : ~(HasLabel(n, k) /\ NodeLabel(n, k) = P(p).affNot[k])
+  /\ \A t \in 1..Len(N(n).taints) :
+        N(n).taints[t].effect \in {"NoSchedule", "NoExecute"} =>
+          \E o \in 1..Len(P(p).tols) : Tolerates(P(p).tols[o], N(n).taints[t])
+IsPlacement(i) == BindAny(i) \/ Piped(i)
+C04_Node == \A i \in Dec : IsPlacement(i) => (D[i].n \in Nodes /\ NodeOK(D[i].p, D[i].n))
+\* topology domain of a term
+SameDomain(a, b, topo) == IF topo = "zone" THEN HasLabel(a, ZoneKey) /\ HasLabel(b, ZoneKey) /\ NodeLabel(a, ZoneKey) = NodeLabel(b, ZoneKey)
+                          ELSE a = b
+PodHasLabel(x, k, v) == k \in DOMAIN P(x).labels /\ P(x).labels[k] = v
+\* where pod x is, as seen by decision i: its node at cycle start, or the node of its newest
+\* placement before i; 0 = nowhere. For a nomination, pods that are terminating or were evicted
+\* earlier in the cycle do not count (the nominated pod waits for them to leave).
+PlacedBefore(x, i) == {k \in 1..(i - 1) : IsPlacement(k) /\ D[k].p = x /\ (BindAny(k) => D[k].ok = 1)}
+LastPlace(x, i) == IF PlacedBefore(x, i) = {} THEN 0 ELSE Max(PlacedBefore(x, i))
+LastEvict(x, i) == LET e == {k \in 1..(i - 1) : EvictOK(k) /\ D[k].p = x} IN IF e = {} THEN 0 ELSE Max(e)
+BaseAt(x, i) == IF LastPlace(x, i) > 0 THEN D[LastPlace(x, i)].n ELSE IF S[x].st \in OccSt THEN S[x].node ELSE 0
+Leaving(x, i) == LastEvict(x, i) > LastPlace(x, i) \/ (LastPlace(x, i) = 0 /\ S[x].st = "terminating")
+WhereAt(x, i) == IF Piped(i) /\ Leaving(x, i) THEN 0 ELSE BaseAt(x, i)
+Others(p, i, n, topo) == {x \in Pods \ {p} : WhereAt(x, i) # 0 /\ SameDomain(WhereAt(x, i), n, topo)}
+\* for affinity the lenient reading is the opposite one: pods that are still there count
+WhereAtAll(x, i) == BaseAt(x, i)
+OthersAll(p, i, n, topo) == {x \in Pods \ {p} : WhereAtAll(x, i) # 0 /\ SameDomain(WhereAtAll(x, i), n, topo)}
+C04_PodAntiAffinity ==
+  \A i \in Dec : IsPlacement(i) =>
+    LET p == D[i].p  n == D[i].n IN
+      /\ \A t \in 1..Len(P(p).podAnt) :
+            ~\E x \in Others(p, i, n, P(p).podAnt[t].topo) : PodHasLabel(x, P(p).podAnt[t].key, P(p).podAnt[t].val)
+      \* symmetry: the required anti-affinity of pods already there
+      /\ \A x \in Pods \ {p} : \A t \in 1..Len(P(x).podAnt) :
+            (WhereAt(x, i) # 0 /\ SameDomain(WhereAt(x, i), n, P(x).podAnt[t].topo))
+              => ~PodHasLabel(p, P(x).podAnt[t].key, P(x).podAnt[t].val)
+C04_PodAffinity ==
+  \A i \in Dec : IsPlacement(i) =>
+    LET p == D[i].p  n == D[i].n IN
+      \A t \in 1..Len(P(p).podAff) :
+         \/ \E x \in OthersAll(p, i, n, P(p).podAff[t].topo) : PodHasLabel(x, P(p).podAff[t].key, P(p).podAff[t].val)
+         \* the first pod of a self-affine set may start a domain (upstream InterPodAffinity rule)
+         \/ /\ PodHasLabel(p, P(p).podAff[t].key, P(p).podAff[t].val)
+            /\ ~\E x \in Pods \ {p} : WhereAtAll(x, i) # 0 /\ PodHasLabel(x, P(p).podAff[t].key, P(p).podAff[t].val)
+
+(***************************************************************************)
 (* C13 (as observable on the Cache calls of real cycles): committing emits  *)
 (* each pod at most once per call kind and statement.                      *)
 (***************************************************************************)
